@@ -188,7 +188,7 @@ def run_fuzz(prop, tier, seed, stage, workdir, api):
     env['ASAN_OPTIONS'] = api.ASAN_OPTIONS + ':quarantine_size_mb=8'
     env['UBSAN_OPTIONS'] = api.UBSAN_OPTIONS
     # seed corpus written by the target itself
-    subprocess.run([exe, '-seed_corpus_out=' + corpus], env=dict(env, VF_WRITE_CORPUS=corpus), stdout=subprocess.DEVNULL, stderr=subprocess.DEVNULL)
+    subprocess.run([exe, '-runs=0'], env=dict(env, VF_WRITE_CORPUS=corpus), stdout=subprocess.DEVNULL, stderr=subprocess.DEVNULL, timeout=300)
     runs_total = stage.get('runs', {}).get(tier, 2000000)
     workers = min(api.jobs(), stage.get('workers', 16))
     per = max(1, runs_total // workers)
